@@ -20,6 +20,7 @@ var verifHarnesses = map[string]func(){
 	"VerifC17_SingleOIDCFilter":   VerifC17_SingleOIDCFilter,
 	"VerifC17_DefaultAndOverride": VerifC17_DefaultAndOverride,
 	"VerifC17_MergedPathsAreJudgedAfterTheMerge": VerifC17_MergedPathsAreJudgedAfterTheMerge,
+	"VerifC17_OpenIDScopeForAnyScopeList":        VerifC17_OpenIDScopeForAnyScopeList,
 }
 
 const (
@@ -196,6 +197,34 @@ func VerifC17_MergedPathsAreJudgedAfterTheMerge() {
 	if got != nil {
 		vn.Cover("C17/accepted-with-callback-and-logout-from-different-messages", split)
 	}
+}
+
+// VerifC17_OpenIDScopeForAnyScopeList: scope values are case-sensitive (RFC 6749 section 3.3); an
+// accepted filter requests exactly "openid" whatever else is configured -- other spellings
+// ("OpenID", "OPENID"), prefixes and unrelated scopes do not stand in for it -- and configured
+// scopes are kept.
+func VerifC17_OpenIDScopeForAnyScopeList() {
+	cfg := &configv1.Config{ListenAddress: "0.0.0.0", ListenPort: 8080, HealthListenPort: 8081, LogLevel: "info", Threads: 1}
+	o := kitOIDCv("oidc", 0, false, "https://idp/e")
+	n := vn.Choice("nscopes", 3)
+	for i := 0; i < n; i++ {
+		o.Scopes = append(o.Scopes, vn.StringIn("scope"+string(rune('0'+i)), 7, "openidOPENID2"))
+	}
+	configured := append([]string(nil), o.Scopes...)
+	cfg.Chains = []*configv1.FilterChain{{Name: "c", Filters: []*configv1.Filter{{Type: &configv1.Filter_Oidc{Oidc: o}}}}}
+	got := kitLoadAndJudge(cfg)
+	if got == nil {
+		return
+	}
+	res := got.Chains[0].Filters[0].GetOidc()
+	for i, want := range configured {
+		kept := false
+		for _, s := range res.GetScopes() {
+			kept = vn.Or(kept, s == want)
+		}
+		vn.Assert("C17/configured-scope-kept:"+string(rune('0'+i)), kept)
+	}
+	vn.Cover("C17/accepted-with-scopes", n > 0)
 }
 
 // VerifC17_DefaultAndOverride: a default configuration merged with one override filter.
